@@ -47,14 +47,14 @@ PROFILES = {
     # every phase of a nested run x every way an ancestor ends
     "C11": dict(p_flat=0.0, max_nodes=11, max_dur=3, p_exc=0.3, p_crit=0.5,
                 tmos=[-1, -1, 1, 2, 3], cdurs=[0, 1, 2, 3], sdurs=[0, 1, 2, 3],
-                stmos=[0, 1, 2, 3, -1], p_never=0.12, p_forever=0.25),
+                scdurs=[0, 0, 1, 2], stmos=[0, 1, 2, 3, -1], p_never=0.12, p_forever=0.25),
     # ties among requirements, hash permutations, windows
     "C12": dict(p_flat=0.6, max_flat=9, max_dur=2, p_exc=0.15, p_crit=0.1,
                 wins=[0, 0, 1, 2, 3], tmos=[-1], p_never=0.0, p_forever=0.05),
     # three exit paths at every level, every handler against every timeout
     "C13": dict(p_flat=0.1, max_nodes=10, max_dur=2, p_exc=0.3, p_crit=0.5,
                 tmos=[-1, -1, 1, 2], sdurs=[0, 1, 2, 3, 4], stmos=[0, 1, 2, 3, -1],
-                cdurs=[0, 1], p_never=0.08, p_forever=0.2),
+                scdurs=[0, 0, 1, 2], cdurs=[0, 1], p_never=0.08, p_forever=0.2),
     # predicates: both flavours, windows so that `queued` is observed
     "C14": dict(p_flat=0.4, max_dur=3, p_exc=0.3, p_crit=0.3,
                 wins=[0, 1, 1, 2, 3], tmos=[-1, -1, 2, 4], p_never=0.05, p_forever=0.15),
@@ -314,6 +314,7 @@ def shutdown_grid(rng, count):
                  sdur=[rng.choice([0, 1, 2, 3, 4]) if i in jobs else 0 for i in range(n)],
                  stmo=[rng.choice([0, 1, 2, 3, -1]) if kind[i] == "sched" else 1 for i in range(n)],
                  cdur=[rng.choice([0, 0, 1, 2]) for _ in range(n)],
+                 scdur=[rng.choice([0, 0, 1, 2]) if i in jobs else 0 for i in range(n)],
                  forever=[False] + [rng.random() < 0.15 for _ in range(n - 1)],
                  pure=rng.random() < 0.2)
         if admissible(sc["cfg"]):
